@@ -120,7 +120,7 @@ def main():
         setup_cmd="bin/setup",
         hooks=dict(
             guard="cargo feature verif-hooks (off by default; adds src/verif_hooks.rs)",
-            enable="the harness crate depends on fips204 by path (/repo) with features = [\"verif-hooks\", \"dudect\"]",
+            enable="the harness crates depend on fips204 by path (/repo) with features = [\"verif-hooks\"]; the crate's own `dudect` feature is added by the harness feature `dudect` (flavour builds) and by the C14 driver",
             baseline_off_cmd="cd /repo && cargo test --workspace --no-fail-fast --offline",
             source_commits=hooks_commits,
             add_only=True,
